@@ -9,8 +9,9 @@
                                                (model: load (save s); spec: (1 content s))
      3  whether every annotation of the loaded store addresses the same text
                                                (model: computed on load (save s); spec: 1)
-     4  the hypothesis of the row theorems: store_ok s (ranges inside their resource / parent,
-        lengths within the cursor type); model: computed, spec: 1, the harness answers 1
+     4  the hypotheses of the theorems about a store: store_ok s (ranges inside their resource /
+        parent, lengths within the cursor type) and the shape of every target; model: computed,
+        spec: 1, the harness answers 1
    Known class 1 = Known_C15_tempid (items without public id), 2 = Known_C15_empty_complex. *)
 From Coq Require Import List ZArith NArith Bool Arith.
 Import ListNotations.
@@ -106,4 +107,4 @@ Definition run_C15 (x : sx) : sx :=
             (rows_obs (map_opt (fun ha => spec_row s (fst ha) (snd ha)) (live_items (anns s)))) 0;
      triple (sx_of_loaded rt) (roundtrip_spec s) known;
      triple same_text (A 1) known;
-     triple (of_bool (store_ok s)) (A 1) 0].
+     triple (of_bool (hyps_ok s)) (A 1) 0].
